@@ -268,10 +268,19 @@ func cmdCheck(args []string) int {
 		}
 		isKnown := false
 		for _, k := range known {
-			if k.Status == "open" && k.Obligation == r.O.Name {
+			if k.Status == "open" && (k.Obligation == r.O.Name || k.Obligation == stripOrdinal(r.O.Name)) {
 				isKnown = true
 				if !r.OK {
-					knownHits = append(knownHits, fmt.Sprintf("KNOWN-FINDING: property=%s %s", prop, k.Text))
+					line := fmt.Sprintf("KNOWN-FINDING: %s", k.Text)
+					dup := false
+					for _, h := range knownHits {
+						if h == line {
+							dup = true
+						}
+					}
+					if !dup {
+						knownHits = append(knownHits, line)
+					}
 				}
 			}
 		}
@@ -388,6 +397,16 @@ func cmdCheck(args []string) int {
 	}
 	fmt.Printf("%s: %d/%d claimed obligations discharged over %d functions (%d unclaimed undischarged, %d known findings), %.1fs\n", prop, discharged, claimed, len(fnNames), len(unclaimed), len(knownHits), wall)
 	return exit
+}
+
+// stripOrdinal removes a trailing [n] (return-site / occurrence ordinal) from an obligation name.
+func stripOrdinal(n string) string {
+	if strings.HasSuffix(n, "]") {
+		if i := strings.LastIndex(n, "["); i > 0 {
+			return n[:i]
+		}
+	}
+	return n
 }
 
 func round2(f float64) float64 { return float64(int(f*100+0.5)) / 100 }
